@@ -6,7 +6,14 @@ mutant bursts after honest prefixes are executed on the real handler, one world 
 allocation metering and a watchdog, and validated against Server_Trace.tla.
 Clients: Client.tla; every response position of DI/TO0/TO1/TO2 client roles receives
 structure-aware mutations at the wire level and (TO2 65..71) at the plaintext level inside the
-tunnel; outcomes validated against Client_Trace.tla."""
+tunnel; outcomes validated against Client_Trace.tla.
+Classes of mutants (spec/MutantClasses.tla): level (wire / plaintext in the tunnel / authenticated part with
+the authentication repaired) x family (struct / inner binary framing / volume).  TLC enumerates every
+(message position, honest session state, level, family) on the server side (Server_Mutants.tla) and every
+(role, position, occurrence, level, family) on the client side (Client_Gen.tla); the harness delivers the
+mutants of each class to the real code, in every key exchange family where the message carries a key
+exchange parameter."""
+import hashlib
 import json
 import os
 import random
@@ -19,6 +26,18 @@ from lib.vlib import Inconclusive, write_ndjson, read_ndjson, go_env
 from checks import server_family
 
 ALLOC_SLACK = 8 << 20
+ENTRY_OVERHEAD = 2048      # volume family: bookkeeping allowed per list entry / map key / string beyond 64 bytes per byte
+
+
+def alloc_budget(e):
+    """Allocation a handler call may make: in proportion to the bytes of the request and, for the
+    volume family (legal messages with thousands of tiny entries), to the number of entries added."""
+    b = 64 * e.get("len", 0) + ALLOC_SLACK
+    if e.get("fam") == "volume":
+        m = re.search(r"-x(\d+) ", (e.get("note") or "") + " ")
+        if m:
+            b += ENTRY_OVERHEAD * int(m.group(1))
+    return b
 PROTO_STEPS = {"DI": [10, 12], "TO0": [20, 22], "TO1": [30, 32], "TO2": [60, 62, 64, 66, 68, 68, 68, 70]}
 
 
@@ -56,79 +75,173 @@ def positional(rnd, n, kinds):
     return out
 
 
-def sweep_behaviour(proto, k, dev, t, level, idx, cfg):
-    """Honest prefix of k messages of proto, then sweep mutant number idx of message type t."""
-    acts, slot = [], 1
-    if proto == "TO1":
-        acts += [{"a": "start", "s": 1, "p": "TO0", "d": dev}, {"a": "honest", "s": 1}]
-        slot = 2
-    acts.append({"a": "start", "s": slot, "p": proto, "d": dev})
-    acts += [{"a": "honest", "s": slot}] * max(0, k - 1)
-    acts.append({"a": "mutant", "s": slot, "t": t, "b": level, "seed": idx})
-    if t == 22 and level == "sweeps":
-        # a registration accepted from a re-signed mutant is then used by the device
-        acts += [{"a": "start", "s": 2, "p": "TO1", "d": dev}, {"a": "honest", "s": 2}]
+# (key kind, key exchange suite): one world per key exchange family
+KEX_WORLDS = [("P256", "ECDH256"), ("P384", "ECDH384"), ("RSA2048RESTR", "DHKEXid14"), ("RSA2048RESTR", "ASYMKEX2048")]
+KEX_WORLDS_MORE = [("RSAPKCS3072", "DHKEXid15"), ("RSAPKCS3072", "ASYMKEX3072"), ("RSAPSS2048", "DHKEXid14"), ("RSAPSS3072", "ASYMKEX3072")]
+DEPLOYMENTS = [(False, 1), (True, 0)]      # (credential reuse, owner modules)
+
+
+def tlc_enumerate(ctx, module, cfg, deps):
+    """Records printed by an enumeration module (breadth first, one worker). The result depends on the
+    specification only, so it is cached under spec/cover/ keyed by a hash of the modules and the
+    configuration (as server_family.cover does)."""
+    h = hashlib.sha256()
+    for fn in deps:
+        with open(os.path.join(ctx.spec, fn), "rb") as f:
+            h.update(f.read())
+    h.update(cfg.encode())
+    key = "%s-%s" % (module, h.hexdigest()[:20])
+    cpath = os.path.join(server_family.COVER_DIR, key + ".json")
+    if os.path.exists(cpath):
+        with open(cpath) as f:
+            c = json.load(f)
     else:
-        acts += [{"a": "honest", "s": slot}]
-    return {"cfg": cfg, "actions": acts}
+        wd = ctx.sub("enum-" + key)
+        cfgp = os.path.join(wd, module + ".cfg")
+        with open(cfgp, "w") as f:
+            f.write(cfg)
+        r = ctx.tlc(module, cfgp, workers=1, quiet=True, timeout=1800)
+        if r["errors"]:
+            raise Inconclusive("%s: %s" % (module, "; ".join(r["errors"])[:2000]))
+        c = {"cfg": cfg, "generated": r.get("generated"), "distinct": r.get("distinct"), "records": ctx.behaviours(r)}
+        try:
+            os.makedirs(server_family.COVER_DIR, exist_ok=True)
+            with open(cpath + ".tmp", "w") as f:
+                json.dump(c, f)
+            os.replace(cpath + ".tmp", cpath)
+        except OSError:
+            pass
+    ctx.cov["states"] += c.get("distinct") or 0
+    ctx.cov["transitions"] += c.get("generated") or 0
+    return c["records"]
 
 
-def sweep_positions():
-    """(proto, honest prefix length, message type, level) for every client message of every protocol."""
-    out = []
-    for proto, steps in PROTO_STEPS.items():
-        for k, t in enumerate(steps):
-            if t == 68 and k > 4:
-                continue
-            out.append((proto, k, t, "sweep"))
-            if t in (66, 68, 70):
-                out.append((proto, k, t, "sweepp"))     # plaintext mutated, then protected with the session keys
-            if t in (22, 32, 64):
-                out.append((proto, k, t, "sweeps"))     # authenticated part mutated, authentication repaired
+def server_classes(ctx):
+    """(deployment, prefix actions, mutant record) for every class Server_Mutants.tla reaches."""
+    out, seen = [], set()
+    for (reuse, nmods) in DEPLOYMENTS:
+        cfg = """SPECIFICATION MSpec
+CONSTANTS
+  Slots = {1, 2}
+  Devs = {"dA"}
+  Reuse = %s
+  NMods = %d
+  Policy = "none"
+  Forge64 = {}
+  Forge22 = {}
+  Forge32 = {}
+  Served = {"DI", "TO0", "TO1", "TO2"}
+  MaxReq = 10
+  WithMutants = TRUE
+VIEW MView
+INVARIANTS Emit
+CHECK_DEADLOCK FALSE
+""" % ("TRUE" if reuse else "FALSE", nmods)
+        for b in tlc_enumerate(ctx, "Server_Mutants", cfg, ("Server.tla", "MutantClasses.tla", "Server_Mutants.tla")):
+            m = b[-1]
+            if m.get("kind") != "mutant" or "fam" not in m:
+                raise Inconclusive("Server_Mutants printed a behaviour that does not end in a classed mutant")
+            prefix = [server_family.to_action(x) for x in b[:-1]]
+            if m["t"] < 60:
+                # DI / TO0 / TO1 do not depend on the TO2 deployment: once
+                k = (json.dumps(prefix), m["t"], m["lvl"], m["fam"])
+                if k in seen:
+                    continue
+                seen.add(k)
+            out.append({"reuse": reuse, "nmods": nmods, "prefix": prefix, "m": m})
     return out
 
 
-def sweep(ctx, rnd, kinds, budget):
-    """Deterministic single-point structural sweep (cb.Sweep) of every client message: a probe run per
-    (position, level, key kind, key encoding) learns how many mutants the message has; then all of
-    them (thorough) or a seeded sample of `budget` (quick) are delivered, each after an honest prefix
-    in a fresh world."""
-    worlds = []
-    for k in kinds:
-        for enc in server_family.ENC_FOR[k]:
-            worlds.append({"kind": k, "enc": enc, "reuse": False, "nmods": 1, "policy": "none"})
-    probes = []
-    for w in worlds:
-        for (proto, k, t, level) in sweep_positions():
-            cfg = dict(w, seed=rnd.getrandbits(62))
-            probes.append(sweep_behaviour(proto, k, "new" if proto == "DI" else "dA", t, level, 0, cfg))
+def classed_behaviour(c, world, idx, seed):
+    m = c["m"]
+    acts = list(c["prefix"]) + [{"a": "mutant", "s": m["s"], "t": m["t"], "b": m["lvl"], "fam": m["fam"], "seed": idx}]
+    if m["t"] == 22 and m["lvl"] == "signed":
+        # a registration accepted from a re-signed mutant is then used by the device
+        acts += [{"a": "start", "s": 2, "p": "TO1", "d": "dA"}, {"a": "honest", "s": 2}]
+    else:
+        acts += [{"a": "honest", "s": m["s"]}]
+    cfg = {"kind": world[0], "kex": world[1], "enc": world[2], "reuse": c["reuse"], "nmods": c["nmods"], "policy": "none", "lean": True, "seed": seed}
+    return {"cfg": cfg, "actions": acts, "cls": [m["t"], m["lvl"], m["fam"]]}
+
+
+def pick_worlds(rnd, kex_bearing, enc_bearing, quick, i):
+    """Every key exchange family where the message carries a key exchange parameter; elsewhere the
+    worlds take turns (quick) / one world per key family (thorough). Every public key encoding
+    where the message carries public keys; elsewhere the encoding is drawn. Where both matter the
+    two dimensions are covered each (their union, not their product)."""
+    allw = KEX_WORLDS if quick else KEX_WORLDS + KEX_WORLDS_MORE
+    turn = [allw[i % len(allw)]] if quick else KEX_WORLDS[:3]
+    out = []
+    if kex_bearing:
+        out += [(k, x, rnd.choice(server_family.ENC_FOR[k])) for (k, x) in allw]
+    if enc_bearing:
+        out += [(k, x, enc) for (k, x) in turn for enc in server_family.ENC_FOR[k] if (k, x, enc) not in out]
+    if not out:
+        out = [(k, x, rnd.choice(server_family.ENC_FOR[k])) for (k, x) in turn]
+    return out
+
+
+def classed_server(ctx, rnd, quick):
+    """Every mutant of every deterministic class, delivered after the honest prefix of the class in a
+    fresh (lean) world. A probe (mutant 0) per (class, world) tells how many mutants the class has there.
+    Quick: the struct family (large) is sampled; inner and volume are executed completely."""
+    classes = server_classes(ctx)
+    ctx.notes["server_mutant_classes"] = len(classes)
+    cells = []
+    for i, c in enumerate(classes):
+        for w in pick_worlds(rnd, c["m"].get("kex"), c["m"].get("enc"), quick, i + ctx.seed):
+            cells.append((c, w))
+    probes = [classed_behaviour(c, w, 0, rnd.getrandbits(62)) for (c, w) in cells]
     evs = run_metered(ctx, probes, "probe")
-    counts = {}
+    counts, cur = {}, None
     for e in evs:
         if e["kind"] == "reset":
             cur = e
-        elif e["kind"] == "mutant" and "n=" in (e.get("note") or ""):
-            b = cur["actions"]
-            m = next(a for a in b if a["a"] == "mutant")
-            counts[(cur["cfg"]["kind"], cur["cfg"]["enc"], m["t"], m["b"])] = int(e["note"].rsplit("n=", 1)[1])
-    total = sum(counts.values())
-    ctx.notes["sweep_mutants_total"] = total
+        elif e["kind"] == "mutant" and e.get("fam") and "n=" in (e.get("note") or ""):
+            counts[cur["probe"]] = int(re.search(r"n=(\d+)", e["note"]).group(1))
     if not counts:
-        raise Inconclusive("sweep probes produced no mutant counts")
-    todo = []
-    for w in worlds:
-        for (proto, k, t, level) in sweep_positions():
-            n = counts.get((w["kind"], w["enc"], t, level), 0)
-            for idx in range(n):
-                todo.append((w, proto, k, t, level, idx))
-    if budget and len(todo) > budget:
-        todo = rnd.sample(todo, budget)
-    behaviours = [sweep_behaviour(proto, k, "new" if proto == "DI" else "dA", t, level, idx, dict(w, seed=rnd.getrandbits(62)))
-                  for (w, proto, k, t, level, idx) in todo]
-    ctx.notes["sweep_mutants_executed"] = len(behaviours)
-    ctx.log("structural sweep: %d single-point mutants in %d (position, world) cells; executing %d" % (total, len(counts), len(behaviours)))
-    return evs + run_metered(ctx, behaviours, "sweep")
+        raise Inconclusive("class probes produced no mutant counts")
+    todo = {"struct": [], "inner": [], "volume": []}
+    per_family = {"struct": 0, "inner": 0, "volume": 0}
+    for pi, (c, w) in enumerate(cells):
+        n = counts.get(pi, 0)
+        per_family[c["m"]["fam"]] += n
+        todo[c["m"]["fam"]] += [(c, w, idx) for idx in range(1, n)]
+    ctx.notes["server_class_cells"] = len(cells)
+    ctx.notes["server_class_cells_without_cases"] = sum(1 for pi in range(len(cells)) if not counts.get(pi))
+    ctx.notes["server_classed_mutants_total"] = per_family
+    budget = {"struct": 2000, "inner": 4000, "volume": 2000} if quick else {"struct": 30000, "inner": 20000, "volume": 8000}
+    chosen = []
+    for fam, lst in todo.items():
+        if len(lst) > budget[fam]:
+            # the classes behind an integrity check or inside the tunnel are small and deep: keep them whole
+            deep = [x for x in lst if x[0]["m"]["lvl"] != "wire"] if fam != "struct" else []
+            rest = [x for x in lst if x[0]["m"]["lvl"] == "wire"] if deep else lst
+            lst = deep + rnd.sample(rest, max(0, min(len(rest), budget[fam] - len(deep))))
+        chosen += lst
+    behaviours = [classed_behaviour(c, w, idx, rnd.getrandbits(62)) for (c, w, idx) in chosen]
+    ctx.notes["server_classed_mutants_executed"] = len(behaviours) + len(probes)
+    ctx.log("classed mutants: %d classes, %d (class, world) cells, %s mutants; executing %d" % (len(classes), len(cells), per_family, len(behaviours) + len(probes)))
+    return evs + run_metered(ctx, behaviours, "classed")
 
+
+def client_classes(ctx):
+    cfg = "SPECIFICATION GSpec\nVIEW GView\nINVARIANTS Emit\nCHECK_DEADLOCK FALSE\n"
+    recs = tlc_enumerate(ctx, "Client_Gen", cfg, ("Client.tla", "MutantClasses.tla", "Client_Gen.tla"))
+    if not recs:
+        raise Inconclusive("Client_Gen enumerated no classes")
+    return recs
+
+
+def classed_client(ctx, rnd, quick):
+    """(probe cases, function from probe events to the remaining cases) for the client roles."""
+    classes = client_classes(ctx)
+    ctx.notes["client_mutant_classes"] = len(classes)
+    cells = []
+    for i, c in enumerate(classes):
+        for (k, x, enc) in pick_worlds(rnd, c.get("kex"), c.get("enc"), quick, i + ctx.seed):
+            cells.append({"role": c["role"], "pos": c["pos"], "nth": c["nth"], "level": c["level"], "fam": c["fam"], "kind": k, "kex": x, "enc": enc})
+    return cells
 
 def run_metered(ctx, behaviours, label, procs=12):
     """One world per process at a time, allocation metering on; several processes in parallel."""
@@ -153,6 +266,7 @@ def run_metered(ctx, behaviours, label, procs=12):
             if ev["kind"] == "reset":
                 b = chunks[i][ev["run"] - 1]
                 ev["cfg"], ev["actions"] = b["cfg"], b["actions"]
+                ev["probe"] = (ev["run"] - 1) * procs + i      # index of the behaviour in the list given
             ev["run"] = ev["run"] * procs + i
         return evs
     with ThreadPoolExecutor(max_workers=procs) as ex:
@@ -164,6 +278,14 @@ def run_metered(ctx, behaviours, label, procs=12):
         e["run"] += off
     ctx._run_offset = max([e["run"] for e in out] or [off]) + 1
     return out
+
+
+def mutation_kind(note):
+    """Stable name of a classed mutation: family and kind without the position and the counts."""
+    w = (note or "").strip().split(" ")[0]
+    fam, _, rest = w.partition(":")
+    kind = re.sub(r"-x\d+$", "", rest.rsplit(":", 1)[-1])
+    return fam + ":" + (kind[len(fam) + 1:] if kind.startswith(fam + "-") else kind)
 
 
 def instruments(ctx, evs):
@@ -179,13 +301,17 @@ def instruments(ctx, evs):
             what = "handler panicked: %s" % e.get("note", "")
         elif e.get("resp") == -2:
             key = "hang|server|t=%s|%s" % (e.get("t"), e.get("note", "").split(":")[-1])
-            what = "handler call did not return within 15 s"
-        elif e.get("alloc", 0) > 64 * e.get("len", 0) + ALLOC_SLACK:
+            if e.get("fam"):
+                key = "hang|server|t=%s|%s|%s" % (e.get("t"), e.get("b"), mutation_kind(e.get("note")))
+            what = "handler call did not return within 90 s"
+        elif e.get("alloc", 0) > alloc_budget(e):
             key = "alloc|server|t=%s|%s" % (e.get("t"), (e.get("note") or "").strip().split(" ")[0])
+            if e.get("fam"):
+                key = "alloc|server|t=%s|%s|%s" % (e.get("t"), e.get("b"), mutation_kind(e.get("note")))
             what = "handler call allocated %d bytes for a %d byte request" % (e["alloc"], e.get("len", 0))
         if key:
             bad_runs.add(e["run"])
-            ctx.violation(key, what + " " + json.dumps({k: e[k] for k in ("kind", "t", "b", "note", "alloc", "len") if k in e}), e)
+            ctx.violation(key, what + " " + json.dumps({k: e[k] for k in ("kind", "t", "b", "fam", "note", "alloc", "len") if k in e}), e)
     return [e for e in evs if e["run"] not in bad_runs], len(bad_runs)
 
 
@@ -208,12 +334,12 @@ def run(ctx):
                     x["seed"] = rnd.getrandbits(48)
             behaviours.append({"cfg": {"kind": rnd.choice(kinds), "reuse": reuse, "nmods": nmods, "policy": "none", "seed": rnd.getrandbits(62)}, "actions": a})
     # (b) positional bursts: every message position with the state of every honest prefix
-    behaviours += positional(rnd, 1500 if quick else 40000, kinds)
+    behaviours += positional(rnd, 1200 if quick else 40000, kinds)
     ctx.log("%d behaviours with mutants" % len(behaviours))
     evs = run_metered(ctx, behaviours, "srv")
-    # (b2) deterministic structural sweep of every client message
-    sw = sweep(ctx, rnd, ["P256", "RSA2048RESTR"] if quick else kinds, 4000 if quick else 0)
-    evs += sw
+    # (b2) the classes of Server_Mutants.tla: every deterministic mutant family at every level, at every
+    # message position with every honest session state
+    evs += classed_server(ctx, rnd, quick)
     muts = [e for e in evs if e["kind"] == "mutant"]
     clean, nbad = instruments(ctx, evs)
     n = server_family.validate(ctx, "C10", clean, "c10")
@@ -226,33 +352,35 @@ def run(ctx):
                 level = "plain" if (role == "TO2" and p >= 65 and i % 2 == 0) else "wire"
                 cases.append({"role": role, "pos": p, "nth": (i % 2 if p == 69 else 0), "level": level, "seed": rnd.getrandbits(48),
                               "kind": kinds[i % len(kinds)] if i % 4 == 0 else "P256"})
-    # deterministic structural sweep of every response position (wire, plaintext in the tunnel, and the
-    # owner-signed payloads of 61 / 65 re-signed)
-    cells = []
-    for kind in (["P256", "RSA2048RESTR"] if quick else kinds):
-        for enc in server_family.ENC_FOR[kind]:
-            for role, poss in (("DI", [11, 13]), ("TO0", [21, 23]), ("TO1", [31, 33]), ("TO2", [61, 63, 65, 67, 69, 71])):
-                for p in poss:
-                    levels = ["wire"] + (["plain"] if role == "TO2" and p >= 65 else []) + (["signed"] if p in (61, 65) else [])
-                    for level in levels:
-                        cells.append({"role": role, "pos": p, "nth": 0, "level": level, "kind": kind, "enc": enc, "sweep": True})
+    # the classes of Client_Gen.tla: every deterministic mutant family at every level (wire, plaintext in
+    # the tunnel, signed payloads of 61 / 63 / 65 re-signed) at every response position
+    cells = classed_client(ctx, rnd, quick)
     wdp = ctx.sub("c10-cli-probe")
     with open(os.path.join(wdp, "cases.json"), "w") as f:
         json.dump([dict(c, seed=0) for c in cells], f)
     ctx.run_vh(["cli-mutate", "-in", os.path.join(wdp, "cases.json"), "-out", os.path.join(wdp, "events.ndjson")], timeout=3300)
     pevs = read_ndjson(os.path.join(wdp, "events.ndjson"))
-    todo = []
+    todo = {"struct": [], "inner": [], "volume": []}
+    per_family = {"struct": 0, "inner": 0, "volume": 0}
     for c, e in zip(cells, sorted(pevs, key=lambda e: e["run"])):
         m = re.search(r"n=(\d+)", e.get("what") or "")
         if e.get("hit") and m:
-            todo += [dict(c, seed=i) for i in range(1, int(m.group(1)))]
-    ctx.notes["client_sweep_mutants_total"] = len(todo) + len(cells)
-    budget = 3000 if quick else 0
-    if budget and len(todo) > budget:
-        todo = rnd.sample(todo, budget)
-    ctx.notes["client_sweep_mutants_executed"] = len(todo) + len(cells)
-    ctx.log("client sweep: %d single-point mutants over %d (position, level, world) cells; executing %d" % (
-        ctx.notes["client_sweep_mutants_total"], len(cells), len(todo) + len(cells)))
+            per_family[c["fam"]] += int(m.group(1))
+            todo[c["fam"]] += [dict(c, seed=i) for i in range(1, int(m.group(1)))]
+    ctx.notes["client_class_cells"] = len(cells)
+    ctx.notes["client_class_cells_not_reached"] = sum(1 for e in pevs if not e.get("hit"))
+    ctx.notes["client_classed_mutants_total"] = per_family
+    budget = {"struct": 1500, "inner": 2500, "volume": 1200} if quick else {"struct": 20000, "inner": 20000, "volume": 8000}
+    chosen = []
+    for fam, lst in todo.items():
+        if len(lst) > budget[fam]:
+            deep = [x for x in lst if x["level"] != "wire"] if fam != "struct" else []
+            rest = [x for x in lst if x["level"] == "wire"] if deep else lst
+            lst = deep + rnd.sample(rest, max(0, min(len(rest), budget[fam] - len(deep))))
+        chosen += lst
+    todo = chosen
+    ctx.notes["client_classed_mutants_executed"] = len(todo) + len(cells)
+    ctx.log("client classed mutants: %d (class, world) cells, %s mutants; executing %d" % (len(cells), per_family, len(todo) + len(cells)))
     cases += todo
     wd = ctx.sub("c10-cli")
     cp = os.path.join(wd, "cases.json")
@@ -269,7 +397,8 @@ def run(ctx):
         if e["outcome"] == "crash":
             ctx.violation("panic|%s|client|%s|pos=%d" % (e.get("frame"), e["role"], e["pos"]), "client role panicked on a mutated response (%s): %s" % (e["what"], e.get("err")), e)
         elif e["outcome"] == "hang":
-            ctx.violation("hang|client|%s|pos=%d|%s" % (e["role"], e["pos"], e["what"].split(":")[-1]), "client role hung on a mutated response (%s)" % e["what"], e)
+            kind = mutation_kind(e["what"].replace("signed~", "")) if e.get("fam") else e["what"].split(":")[-1]
+            ctx.violation("hang|client|%s|pos=%d|%s" % (e["role"], e["pos"], kind), "client role hung on a mutated response (%s)" % e["what"], e)
         else:
             ok_lines.append(e)
     if ok_lines:
@@ -289,7 +418,8 @@ def run(ctx):
     ctx.cov["distinct_nontrivial"] = len(set((e.get("t"), e.get("b"), (e.get("note") or "").strip(), e.get("resp")) for e in muts)) + \
         len(set((e["role"], e["pos"], e["level"], e["what"], e["outcome"]) for e in cevs))
     ctx.cov["rule"] = ("one evaluation = one structure-aware mutant (wire, plaintext-in-tunnel or HTTP framing level) delivered to the real handler in a session state reached by an honest prefix or a TLC walk, "
-                       "or one mutated response delivered to a client role; distinct = distinct (type/position, level, mutation kind, outcome)")
+                       "or one mutated response delivered to a client role; the deterministic families (struct, inner framing, volume) are enumerated per class "
+                       "(message position, honest session state, level, family) that TLC prints from Server_Mutants.tla / Client_Gen.tla; distinct = distinct (type/position, level, mutation kind, outcome)")
     ctx.notes["server_mutants"] = len(muts)
     ctx.notes["server_mutants_accepted"] = sum(1 for e in muts if e.get("resp") not in (255, -1, -2))
     ctx.notes["server_runs_with_instrument_events"] = nbad
@@ -300,6 +430,8 @@ def run(ctx):
     ctx.notes["client_outcomes"] = {o: sum(1 for e in cevs if e["outcome"] == o) for o in ("ok", "error", "crash", "hang")}
     ctx.sample([e for e in muts if e.get("resp") == 255][:2])
     ctx.sample([e for e in cevs if e["hit"]][:2])
-    ctx.assumptions += ["allocation oracle: TotalAlloc delta of the handler call <= 64*len(request)+8 MiB, measured with one world per process",
-                        "hang oracle: 15 s per handler call, 40 s per client run", "mutants are seeded structure-aware mutations (cb.Mutate), not all byte strings"]
+    ctx.assumptions += ["allocation oracle: TotalAlloc delta of the handler call <= 64*len(request)+8 MiB (volume family: + 2 KiB per added entry), measured with one world per process",
+                        "hang oracle: a handler call that has not returned after 90 s, a client run that has not returned after 100 s (75 s after its context expired)",
+                        "mutants are seeded structure-aware mutations (cb.Mutate) and the deterministic families of MutantClasses.tla (cb.Sweep, cb.Inner, cb.Volume), not all byte strings",
+                        "signed level: authentication is repaired with the keys the harness owns (owner key for to1d / 61 / 65, device key for the tokens of 32 / 64, manufacturer key for the first voucher entry); voucher-internal signatures and HMACs are not repaired"]
     return "model_checking"
